@@ -189,6 +189,9 @@ def run1 (c : Case) : CaseResult := Id.run do
   if rpolys.length != shapes.length then return { verdict := .diverge "rpoly count ≠ shape count" }
   let shapesBB := (shapes.map fun p => (p, bbox p)).toArray
   let rpolysBB := (rpolys.map fun p => (p, bbox p)).toArray
+  let buffer : Rat := match (c.get "param").find? (fun l => l[0]! == "shapeBufferDistance") with
+    | some l => (num? (l[1]?.getD "0")).getD 0
+    | none => 0
   let lee := cfgFlag c "lee"
   let lk := if lee then "lee" else "naive"
   let allowPoly := cfgFlag c "poly"
@@ -263,7 +266,7 @@ def run1 (c : Case) : CaseResult := Id.run do
       -- orthogonal edges through a non-rectangular shape whose bounding box contains a connector endpoint
       -- are a consequence of the bounding-box treatment (the route-level check covers it): counted only
       let (bx0, by0, bx1, by1) := bbox (shapes.getD i [])
-      let inBB (e : Pt) : Bool := bx0 < e.x && e.x < bx1 && by0 < e.y && e.y < by1
+      let inBB (e : Pt) : Bool := bx0 - buffer < e.x && e.x < bx1 + buffer && by0 - buffer < e.y && e.y < by1 + buffer   -- Obstacle::routingBox()
       let ex := conns.any fun cn => inBB cn.src || inBB cn.dst
       if ex then stats := bumpStats stats "ovisBlockedConnEndpointInBBox" 1
       else fails := ⟨12, .specfail s!"ovis-edge-blocked: orthogonal visibility edge {ptStr p}-{ptStr q} passes through the interior of shape {i+1}"⟩ :: fails
